@@ -52,6 +52,14 @@ class BigV(V):
     big = True
 
 
+class ApproxInt(BigV):
+    """The integer a *float* of magnitude >= 2**53 converts to when it initialises an ``int`` scalar: every such float
+    is integral, so the conversion itself is exact whatever float the implementation computed; the reference knows
+    that float within its error bound ``e``.  Deliverable like a BigV (no arithmetic)."""
+
+    __slots__ = ()
+
+
 def chk(v):
     if v.k == "i":
         if not (I64[0] <= v.v <= I64[1]):
